@@ -240,6 +240,10 @@ PROPS["C12"] = {
     "assumptions": _CONTAINER_ASSUME + ["derived types: bounded payloads and sampled programs, see C07-C11"],
 }
 
+_CS_UNIT = {"kind": "verus", "unit": "cs"}
+PROPS["C06"]["units"] = PROPS["C06"]["units"] + [_CS_UNIT]
+PROPS["C06"]["text"] += " Comma-separated CS<R> lists (src/serde_cs.rs): proved in Verus unit `cs` against a stand-in for serde_cs: Ok exactly when the payload is a String that CS::from_str accepts, otherwise exactly one report at the given location (Unexpected for an unparsable list, kind error listing String otherwise); the *contents* of the parsed list are serde_cs's."
+PROPS["C01"]["units"] = PROPS["C01"]["units"] + [_CS_UNIT]
 _FIELDSTATE_UNIT = {"kind": "verus", "unit": "fieldstate"}
 _JSON_SOURCE_UNIT = {"kind": "verus", "unit": "json_source"}
 PROPS["C13"]["units"] = [_JSON_SOURCE_UNIT] + PROPS["C13"]["units"]
